@@ -23,7 +23,9 @@
     * the tokenizer oracle itself (regexes of the body terminals, contextual lexer); edits *inside* a token (`_AND`/`_OR`
       absorb the preceding line break; multi-line strings) are outside these statements;
     * the 1 900-line Colang 1.0 parser only *comparing* indentation levels of `get_numbered_lines`' output;
-    * "never a hang" inside the parsers (regex back-tracking, the Colang 1.0 line loop).  The LOADER's own loops are proved:
+    * "never a hang" inside the parsers (regex back-tracking of the lexer terminals, the Colang 1.0 line loop).  The comment stripper
+      the transformer runs over every flow's source text IS proved linear (`remove_comments_total`, model `CommentStrip`).
+      The LOADER's own loops are proved:
       `load_imports_terminates`, `config_load_terminates` (the import fix-point of `_load_imported_paths` and the parse loop of
       `_parse_colang_files_recursively` end for every finite import graph - cycles, self-imports, repeated imports included),
       with the exact role of the de-duplicating join (`load_imports_returns_only_if_nodup`, `seeded_join_never_returns`).
@@ -39,6 +41,7 @@ import NemoVerif.Lemmas.PreExpand
 import NemoVerif.Lemmas.TextLayout
 import NemoVerif.Models.ErrWrap
 import NemoVerif.Lemmas.ImportLoop
+import NemoVerif.Lemmas.CommentStrip
 
 namespace NemoVerif.C13
 open NemoVerif NemoVerif.Layout NemoVerif.ErrWrap
@@ -1072,5 +1075,78 @@ example : ∀ f ∈ demoResult.files, ∀ ips, demoWorld.parse f = some ips → 
   (config_load_loads_everything demoWorld demoU demo_ymlClosed demo_coClosed [Item.co 0]
     (by simp [ymlPaths]) (by intro f hf ips hps; simp [coFiles] at hf; subst hf; simp [demoWorld] at hps; subst hps; simp [demoU])
     12 demoResult (by decide)).2.2
+
+/-! ## The comment stripper of the 2.x transformer (`ColangTransformer._remove_source_code_comments`)
+
+  `re.sub(r"#[^\n]*", "", source)` as the linear scanner `CommentStrip.scan` / the fuelled machine `CommentStrip.run`.
+  Tie: translator c13regex.py (shape of the function, the pattern), driver op `C13.strip` against every call the real function
+  receives while the generated programs are loaded. -/
+
+/-- build-time fact about the generated data: the function under test still uses the mirrored pattern -/
+theorem strip_pattern_pinned : Generated.C13Regex.stripPattern = CommentStrip.mirroredPattern := by decide
+
+open NemoVerif.CommentStrip in
+/-- **never a hang**: on every source text the pass ends, after exactly one step per character plus one - for every fuel above
+    the length of the text the machine returns `strip source` (and with less it cannot have ended: the bound is exact). -/
+theorem remove_comments_total (s : List Char) :
+    (∀ fuel, s.length < fuel → run fuel (init s) = some (strip s)) ∧ (∀ fuel, fuel ≤ s.length → run fuel (init s) = none) := by
+  constructor
+  · intro fuel h
+    have := run_eq s false [] fuel h
+    simpa [init, strip] using this
+  · intro fuel h
+    exact run_out_of_fuel s false [] fuel h
+
+open NemoVerif.CommentStrip in
+/-- the result is comment-free, not longer than the source, and has the same number of line breaks (lines are never joined) -/
+theorem remove_comments_result (s : List Char) :
+    '#' ∉ strip s ∧ (strip s).length ≤ s.length ∧ (strip s).count '\n' = s.count '\n' :=
+  ⟨scan_no_hash s false, scan_length_le s false, scan_count_nl s false⟩
+
+open NemoVerif.CommentStrip in
+/-- **strings are kept**: a piece of text without `#` (a string literal of any form - single or triple quoted, over several
+    lines, with quotes of the other kind, escapes, interpolations - as long as it contains no `#`) that begins outside a
+    comment is copied verbatim, wherever it stands, and what follows it is treated as if the string were not there.
+    ∀ prefix, string, suffix.  (Full statement without the `#` hypothesis: false of the code, see the counterexample.) -/
+theorem remove_comments_keeps_strings (pre str post : List Char) (hpre : endState false pre = false) (hstr : '#' ∉ str) :
+    strip (pre ++ str ++ post) = strip pre ++ str ++ strip post := by
+  unfold strip
+  have h := scan_false_nohash str hstr
+  rw [List.append_assoc, scan_append, hpre, scan_append, h.1, h.2, List.append_assoc]
+
+open NemoVerif.CommentStrip in
+/-- a text without `#` is returned as it is -/
+theorem remove_comments_id (s : List Char) (h : '#' ∉ s) : strip s = s := (scan_false_nohash s h).1
+
+open NemoVerif.CommentStrip in
+/-- the `#` hypothesis of `remove_comments_keeps_strings` is needed: the pinned pattern knows nothing about strings, `bot say "Tip #1"`
+    loses the rest of its line (the flows are not affected - only the `source_code` text kept with the flow). -/
+theorem remove_comments_keeps_strings_as_is_counterexample :
+    strip "  bot say \"Tip #1\"\n  pass".toList = "  bot say \"Tip \n  pass".toList := by decide
+
+open NemoVerif.CommentStrip in
+/-- **an end-of-line comment is meaningless for `source_code`**: adding `gap # comment` in front of a line break outside a comment
+    leaves exactly the gap behind.  ∀ prefix outside a comment, gap without `#`, comment text without line break, suffix. -/
+theorem remove_comments_eol_comment (pre gap c post : List Char) (hpre : endState false pre = false) (hgap : '#' ∉ gap) (hc : '\n' ∉ c) :
+    strip (pre ++ gap ++ '#' :: c ++ '\n' :: post) = strip (pre ++ gap ++ '\n' :: post) := by
+  unfold strip
+  have hg := scan_false_nohash gap hgap
+  have hcc := scan_true_nonl c hc
+  have e1 : pre ++ gap ++ '#' :: c ++ '\n' :: post = pre ++ (gap ++ ('#' :: (c ++ '\n' :: post))) := by simp
+  have e2 : pre ++ gap ++ '\n' :: post = pre ++ (gap ++ '\n' :: post) := by simp
+  rw [e1, e2, scan_append, hpre, scan_append, hg.2, scan_append pre, hpre, scan_append gap, hg.2]
+  congr 2
+  simp only [scan, if_true]
+  rw [scan_append, hcc.1, hcc.2]
+  simp [scan]
+
+/-- non-vacuity of `remove_comments_keeps_strings` / `remove_comments_eol_comment`: a multi-line single-quoted string with a lone
+    double quote and a long tail (the shape of the seeded change C13-e) after a statement, a comment behind it -/
+example : CommentStrip.endState false "flow main\n  $t = ".toList = false := by decide
+example : '#' ∉ "'''Please note \" the new opening hours\n    Monday to Friday'''".toList := by decide
+example : CommentStrip.strip ("flow main\n  $t = ".toList ++ "'''a \" b\n  c'''".toList ++ "  # note\n  pass".toList)
+    = "flow main\n  $t = '''a \" b\n  c'''  \n  pass".toList := by decide
+example : CommentStrip.run 10 (CommentStrip.init "a # b\nc".toList) = some "a \nc".toList := by decide
+example : CommentStrip.run 7 (CommentStrip.init "a # b\nc".toList) = none := by decide
 
 end NemoVerif.C13
